@@ -332,6 +332,8 @@ package middleware
 //@ ensures [nohandler] ret(BV,0,2) != nil ==> calls(HD) == 0 && calls(RS) == 1 && arg(RS,0,5) == ret(BV,0,2) && arg(RS,0,4) == ret(RI,0,0)
 //@ ensures [handler] ret(BV,0,2) == nil ==> calls(HD) == 1 && recv(HD,0) == oh && arg(HD,0,0) == ret(BV,0,0) && calls(RS) == 1 && arg(RS,0,1) == w && arg(RS,0,2) == ret(BV,0,1) && arg(RS,0,4) == ret(RI,0,0)
 //@ ensures [result] ret(BV,0,2) == nil ==> arg(RS,0,5) == (ret(HD,0,1) != nil ? ret(HD,0,1) : ret(HD,0,0))
+// (C09) the handler keeps its per-request values in its own variables: it writes no variable shared with other requests
+//@ assigns \opaque
 
 //@ func (*Context).BindAndValidate
 //@ watch CV = invoke (context.Context).Value
